@@ -23,6 +23,8 @@ import (
 // the exact list of transmission instants and the outcome are predicted from
 // the script and compared.
 
+var errRPC = errors.New("harness: rpc error")
+
 type tx struct {
 	at    time.Duration
 	id    int64
@@ -59,7 +61,7 @@ func TestC25(t *testing.T) {
 			default:
 				off = time.Duration(rapid.Int64Range(1, int64(retry)-1).Draw(t, "off"))
 			}
-			kind := rapid.SampledFrom([]string{"ack", "ack", "result", "cancel", "dupack"}).Draw(t, "kind")
+			kind := rapid.SampledFrom([]string{"ack", "ack", "result", "cancel", "dupack", "badresult", "rpcerror"}).Draw(t, "kind")
 			script = append(script, scriptEv{at: time.Duration(k)*retry + off + time.Duration(i), kind: kind})
 		}
 		sort.SliceStable(script, func(i, j int) bool { return script[i].at < script[j].at })
@@ -89,6 +91,14 @@ func TestC25(t *testing.T) {
 						stopAt = e.at
 					}
 					wantOutcome = "canceled"
+				}
+			case "badresult", "rpcerror":
+				// any answer for the request ends it: nothing is sent afterwards
+				if wantOutcome == "" {
+					if stopAt < 0 {
+						stopAt = e.at
+					}
+					wantOutcome = e.kind
 				}
 			}
 			if wantOutcome != "" {
@@ -140,7 +150,12 @@ func TestC25(t *testing.T) {
 			}
 			resCh := make(chan res, 1)
 			go func() {
-				err := eng.Do(ctx, rpc.Request{MsgID: id, SeqNo: seq, Input: rawEnc("retransmit-me"), Output: decoderFunc(func(*bin.Buffer) error { return nil })})
+				err := eng.Do(ctx, rpc.Request{MsgID: id, SeqNo: seq, Input: rawEnc("retransmit-me"), Output: decoderFunc(func(b *bin.Buffer) error {
+					if len(b.Buf) >= 9 && b.Buf[8] != 1 {
+						return errBadDecode
+					}
+					return nil
+				})})
 				resCh <- res{err, time.Since(t0)}
 			}()
 			synctest.Wait()
@@ -155,6 +170,10 @@ func TestC25(t *testing.T) {
 					eng.NotifyAcks([]int64{id - 4, id, id + 4})
 				case "result":
 					_ = eng.NotifyResult(id, &bin.Buffer{Buf: resultPayload(id, true)})
+				case "badresult":
+					_ = eng.NotifyResult(id, &bin.Buffer{Buf: resultPayload(id, false)})
+				case "rpcerror":
+					eng.NotifyError(id, errRPC)
 				case "cancel":
 					cancel()
 				}
@@ -203,6 +222,14 @@ func TestC25(t *testing.T) {
 			case "canceled", "pending":
 				if !errors.Is(r.err, context.Canceled) {
 					t.Fatalf("want context.Canceled, got %v", r.err)
+				}
+			case "badresult":
+				if !errors.Is(r.err, errBadDecode) {
+					t.Fatalf("want the decode error, got %v", r.err)
+				}
+			case "rpcerror":
+				if !errors.Is(r.err, errRPC) {
+					t.Fatalf("want the rpc error, got %v", r.err)
 				}
 			case "sendfail":
 				if !errors.Is(r.err, errSendFailed) {
